@@ -201,7 +201,7 @@ def sym_eq(a, b):
     if isinstance(a, SSeq) or isinstance(b, SSeq):
         s, o = (a, b) if isinstance(a, SSeq) else (b, a)
         if isinstance(o, SSeq):
-            if s.elem.name != o.elem.name:
+            if s.term.sort() != o.term.sort():
                 raise Unsupported("== between sequences of different element sorts")
             return s.term == o.term
         if isinstance(o, (list, tuple)):
@@ -389,6 +389,8 @@ def binop(it, op, a, b):
         return mk_bytes(r, is_mutable_bytes(a)) if is_byteslike(a) else mk_str(r)
     if isinstance(a, SSeq) and opt is ast.Add:
         if isinstance(b, SSeq):
+            if a.term.sort() != b.term.sort():
+                raise Unsupported("+ between sequences of different element sorts")
             return SSeq(z3.Concat(a.term, b.term), a.elem, a.mutable)
         if isinstance(b, (list, tuple)):
             return SSeq(z3.simplify(z3.Concat(a.term, ListOf(a.elem).box(b))), a.elem, a.mutable) if b else SSeq(
